@@ -187,6 +187,10 @@ func (StreamingCRLFileReader) ReadCRL(crlProcessor CRLProcessor, crlFilePath str
 	if err != nil {
 		return nil, err
 	}
+	if signatureBitString.BitLength%8 != 0 {
+		//a signature value is a whole number of octets, the unused bits count is not covered by the signature
+		return nil, errors.New("signature value of the certificate list has unused bits")
+	}
 	if reader.Position() != certificateListEnd {
 		return nil, fmt.Errorf("the length of the certificate list does not match its content: it ends at %d, its length says %d", reader.Position(), certificateListEnd)
 	}
